@@ -4,8 +4,12 @@
   `(version, ids)` over the store model of `AM.Model.Silence`.
 
   A fingerprint is the (canonical, name-sorted) label set itself: fingerprints
-  are taken to be injective (DESIGN §2.2).  One call of `Mutes` is one atomic
-  step; both clock reads inside it return the same instant.
+  are taken to be injective (DESIGN §2.2).  `mutes` is one call of `Mutes`
+  executed atomically; `mutesI` is the same call as the code really runs it —
+  three separately locked accesses to the store (`Silences.Version()`, the
+  re-query of the cached ids, the `QSince` scan) and the cache write — with the
+  store free to change between them.  All clock reads inside one call return
+  the same instant.
 -/
 import AM.Model.Silence
 
@@ -64,13 +68,67 @@ def mutes (env : Env) (s : Store) (c : Cache) (now : Int) (ls : LabelSet) : Mute
   let all := dedupSils cand []
   ⟨put c ls { version := newVersion s ce, ids := liveIdsOf now all }, !(activeIdsOf now all).isEmpty, activeIdsOf now all⟩
 
+/-! ### one call as the code runs it: micro-steps
+
+`Mutes` holds no lock across its accesses to `Silences`: `Version()` (read lock), the
+`Query(QIDs …)` of the cached ids (read lock), the `Query(QSince …)` scan (read lock, returns
+the version it was evaluated at) and finally `cache.set`.  Any store operation may run between
+two of them. -/
+
+/-- what a call in flight has gathered so far -/
+structure MCall where
+  ce : CacheEntry                 -- the entry read from the cache
+  upToDate : Bool                 -- `cachedEntry.version == s.silences.Version()` at the start
+  old : List Sil := []
+  new : List Sil := []
+  ver : Nat                       -- `newVersion`
+  deriving Repr, Inhabited
+
+/-- step 1: read the cache entry, compare with the store version -/
+def mBegin (s : Store) (c : Cache) (ls : LabelSet) : MCall :=
+  let ce := cacheGet c ls
+  { ce := ce, upToDate := decide (ce.version = s.version), ver := ce.version }
+
+/-- the very fast path: nothing cached, nothing new -/
+def MCall.fast (k : MCall) : Bool := k.upToDate && k.ce.ids.isEmpty
+
+/-- step 2: re-query of the cached ids on the store as it is *now*.  The code discards the
+    version this query reports; `late = true` is the discipline of a seeded change that keeps
+    it (so the cache version can run ahead of what was examined). -/
+def mOld (late : Bool) (env : Env) (s : Store) (now : Int) (k : MCall) : MCall :=
+  if k.ce.ids.isEmpty then k else
+    { k with old := query env s now { scan := .ids k.ce.ids, states := activeOrPending },
+             ver := if late then s.version else k.ver }
+
+/-- step 3: only when the cache was not up to date at step 1 — scan of what is indexed after
+    the cached version, on the store as it is now; the new version is the one of that store -/
+def mNew (env : Env) (s : Store) (now : Int) (ls : LabelSet) (k : MCall) : MCall :=
+  if k.upToDate then k else
+    { k with new := query env s now { scan := .since k.ce.version, states := activeOrPending, ls := some ls },
+             ver := s.version }
+
+/-- step 4: classify, write the cache (the cache as it is at that moment) -/
+def mEnd (c : Cache) (now : Int) (ls : LabelSet) (k : MCall) : MutesOut :=
+  let cand := k.old ++ k.new
+  if cand.isEmpty then ⟨put c ls { version := k.ver, ids := [] }, false, []⟩ else
+  let all := dedupSils cand []
+  ⟨put c ls { version := k.ver, ids := liveIdsOf now all }, !(activeIdsOf now all).isEmpty, activeIdsOf now all⟩
+
+/-- One call of `Mutes` with the store being `s0` at the version read, `s1` at the re-query of
+    the cached ids, `s2` at the since-scan; entry read from `c`, written into `c'`. -/
+def mutesI (late : Bool) (env : Env) (now : Int) (ls : LabelSet) (s0 s1 s2 : Store) (c c' : Cache) : MutesOut :=
+  let k := mBegin s0 c ls
+  if k.fast then ⟨c', false, []⟩ else
+  mEnd c' now ls (mNew env s2 now ls (mOld late env s1 now k))
+
 /-- `Silencer.PostGC`. -/
 def postGC (c : Cache) (fps : List LabelSet) : Cache := fps.foldl (fun c ls => erase c ls) c
 
-/-- The specification: direct evaluation of the stored silences (matchers as indexed). -/
+/-- The specification: direct evaluation of the stored silences — the matchers are the ones
+    *stored in the silence* (what `Query` and the API show), not the compiled matcher index. -/
 def activeMatching (env : Env) (s : Store) (now : Int) (ls : LabelSet) (id : String) : Bool :=
-  match lookup s.st id, lookup s.mi id with
-  | some m, some ms => decide (getState m.sil now = .active) && matchesSets env.re ms ls
-  | _, _ => false
+  match lookup s.st id with
+  | some m => decide (getState m.sil now = .active) && matchesSets env.re m.sil.sets ls
+  | none => false
 
 end AM.Silence
